@@ -75,14 +75,16 @@ AtOpen(q) == [h |-> 0, v |-> 0, r |-> 0,
               aggr |-> q.aggr]
 
 (* alignments an enddef with arguments a puts in force *)
+(* the header alignment: a header or variable alignment the user asked for (hint first, then argument) is binding; when none
+   was asked for, the library picks one on its own - the record alignment when there is no fixed-size variable, 512 for a new
+   file, else 4 - and which of these it picks is not promised anywhere (it depends on a variable count taken before the
+   definitions of the current define mode are counted), so all of them are admissible; the report pins the choice down *)
 AlignH(q, a, new, nfix) ==
-    LET x == IF q.h > 0 THEN q.h
-             ELSE IF q.v > 0 THEN q.v
-             ELSE IF a.v > 0 THEN a.v
-             ELSE IF nfix = 0 /\ q.r > 0 THEN q.r
-             ELSE IF nfix = 0 /\ a.r > 0 THEN a.r
-             ELSE IF new THEN DefaultAlign ELSE 4
-    IN Up4(x)
+    IF q.h > 0 THEN {Up4(q.h)}
+    ELSE IF q.v > 0 THEN {Up4(q.v)}
+    ELSE IF a.v > 0 THEN {Up4(a.v)}
+    ELSE LET rr == IF q.r > 0 THEN q.r ELSE a.r
+         IN  (IF rr > 0 THEN {Up4(rr)} ELSE {}) \cup {IF new THEN DefaultAlign ELSE 4}
 AlignV(q, a) == Up4(IF q.v > 0 THEN q.v ELSE IF a.v > 0 THEN a.v ELSE 4)
 AlignR(q, a) == Up4(IF q.r > 0 THEN q.r ELSE IF a.r > 0 THEN a.r ELSE 4)
 
@@ -110,7 +112,8 @@ DefVar(k) ==
 Enddef(a) ==
     /\ phase = "define" /\ ~fresh
     /\ phase' = "data" /\ isnew' = FALSE
-    /\ eff' = [eff EXCEPT !.h = AlignH(req, a, isnew, NFix), !.v = AlignV(req, a), !.r = AlignR(req, a)]
+    /\ \E h \in AlignH(req, a, isnew, NFix) :
+          eff' = [eff EXCEPT !.h = h, !.v = AlignV(req, a), !.r = AlignR(req, a)]
     /\ fresh' = TRUE
     /\ hist' = H([c |-> "enddef", a |-> a])
     /\ UNCHANGED <<req, vars, ext, brec, exists>>
